@@ -104,21 +104,44 @@ impl<T> OffsetArc<T> {
     where
         T: Clone,
     {
+        // `Arc::make_mut` may replace the Arc, and it may unwind after having done so (the old
+        // value's destructor can panic when the other owners went away during the clone). Store the
+        // possibly-replaced Arc back with a drop guard, so that `self` is updated in the panicking
+        // case as well.
+        struct WriteBack<'a, T> {
+            transient: ManuallyDrop<Arc<T>>,
+            this: &'a mut OffsetArc<T>,
+        }
+
+        impl<'a, T> Drop for WriteBack<'a, T> {
+            fn drop(&mut self) {
+                // Neither the refcount is touched nor the old contents of `this` are dropped here.
+                unsafe {
+                    ptr::write(
+                        self.this,
+                        Arc::into_raw_offset(ptr::read(&*self.transient)),
+                    );
+                }
+            }
+        }
+
         unsafe {
             // extract the OffsetArc as an owned variable. This does not modify
             // the refcount and we should be careful to not drop `this`
             let this = ptr::read(self);
             // treat it as a real Arc, but wrapped in a ManuallyDrop
             // in case `Arc::make_mut()` panics in the clone impl
-            let mut arc = ManuallyDrop::new(Arc::from_raw_offset(this));
+            let mut guard = WriteBack {
+                transient: ManuallyDrop::new(Arc::from_raw_offset(this)),
+                this: self,
+            };
             // obtain the mutable reference. Cast away the lifetime since
             // we have the right lifetime bounds in the parameters.
-            // This may mutate `arc`.
-            let ret = Arc::make_mut(&mut *arc) as *mut _;
+            // This may mutate the transient Arc.
+            let ret = Arc::make_mut(&mut *guard.transient) as *mut _;
             // Store the possibly-mutated arc back inside, after converting
-            // it to a OffsetArc again. Release the ManuallyDrop.
-            // This also does not modify the refcount or call drop on self
-            ptr::write(self, Arc::into_raw_offset(ManuallyDrop::into_inner(arc)));
+            // it to a OffsetArc again.
+            drop(guard);
             &mut *ret
         }
     }
